@@ -40,6 +40,8 @@ var harnessPkgDir = map[string]string{
 	"randomness": ".",
 	"detect":     "detect",
 	"fft":        "fft",
+	"rddetector": "tools/rddetector",
+	"rdgen":      "tools/rdgen",
 }
 
 func runHarness(pkg string, req harnessReq, timeout time.Duration) (*harnessResp, error) {
@@ -184,6 +186,8 @@ var propHarness = map[string]map[string][]string{
 	"C11": {"*": {"detect:single-detect"}},
 	"C12": {"detect.Threshold": {"detect:threshold-exhaustive"}, "detect.ThresholdQ": {"detect:thresholdq-perm"}, "*": {"detect:thresholdq-perm"}},
 	"C14": {"*": {"detect:stuck-at"}},
+	"C13": {"rddetector.worker_2E4": {"rddetector:columns-2E4"}, "rddetector.worker_1E6": {"rddetector:columns-1E6"}, "rddetector.worker_1E8": {"rddetector:columns-1E8", "rddetector:columns-1E6"}, "*": {"rddetector:columns-2E4"}},
+	"C20": {"*": {"rdgen:output-dir"}},
 }
 
 func rerunWitness(rp map[string]interface{}) (string, int) {
